@@ -6,7 +6,7 @@
         props  = - | keyhex:<ann L|S><value L|S>:<slots|->;…             (ann = return annotation, value = run-time shape)
         under  = - | slot,slot,…
     hs <fallback beh|none> <clshex=beh;…|->                  → ok
-        beh    = sig | id | strict0 | raise:<Exc> | nest:<slot> | try:<slot>
+        beh    = sig | id | mut | nil | strict0 | raise:<Exc> | nest:<slot> | try:<slot>
     exec <slot>                                              → <ok result | Err> | <frame sizes, newest first>
     denote <slot>                                            → <ok result | Err>      (reference semantics)
     procedural <slot>                                        → nid,nid,…
@@ -75,6 +75,10 @@ def mkHandler (nodes : Array PNode) (beh : String) : Option (Handler String) :=
   match beh.splitOn ":" with
   | ["sig"] => some fun n ev => .ret (sig n ev)
   | ["id"] => some fun n _ => .ret (toString n.id)
+  -- `mut`: the real handler edits the lists it received in place after reading them; lists are values of one event, so = `sig`
+  | ["mut"] => some fun n ev => .ret (sig n ev)
+  -- `nil`: the real handler returns None (rendered "None"); a result like any other
+  | ["nil"] => some fun _ _ => .ret "None"
   | ["strict0"] => some fun n ev => if ev.isEmpty then .ret (sig n ev) else .fail .typeError
   | ["raise", x] => some fun _ _ => .fail (errOf x)
   | ["nest", s] =>
